@@ -108,7 +108,7 @@ META = {
              "round trip - for every identifier, range and offset the text `name[<n>s] offset <m>s` is lexed to exactly its six "
              "tokens, the duration texts denote n and m, and the token-level round trip holds; lexAll_printText_fragment "
              "(Lemmas/PromLexFrag) extends the character-level lexing by induction to a recursive fragment: names, range "
-             "selectors, parentheses, one-argument calls and ` + `. `decide` witnesses show the printer "
+             "selectors, parentheses, one-argument calls and (round 7) the twelve binary operators written ` op ` (+ - * / % ^ == != <= >= < >; step_bop). `decide` witnesses show the printer "
              "before the fix violated the property in six ways. Ties: per generated source the real ParseExpr (accept/reject, "
              "tree), the real String() (token sequence), and the real lexer on every string, number, duration and word token "
              "(ops lexstr, lexnum, lexdur, lexword), the real lexer on the WHOLE source and the WHOLE printed text (op lexall), parseDuration on every duration literal (pdur), `%ds` (durtext), `@` "
@@ -124,8 +124,8 @@ META = {
              "round-trip oracle only; the lexical theorems are per token class and per lexer step: a character-level model of "
              "the printer's spacing and the induction chaining the steps over a whole printed expression (lexAll(printText e) = "
              "tokens of printExpr e) are proved only for the family `name[<n>s] offset <m>s` (lexAll_range_offset) and for the "
-             "recursive fragment of lexAll_printText_fragment (names, name[<n>s], parentheses, one-argument calls, binary +); "
-             "matchers, several arguments, @/offset inside the fragment, aggregations, the other operators and modifiers, number/string "
+             "recursive fragment of lexAll_printText_fragment (names, name[<n>s], parentheses, one-argument calls, the twelve arithmetic/comparison binary operators, unsigned number literals); "
+             "matchers, several arguments, @/offset inside the fragment, aggregations, the set operators and the bool/on/ignoring/group modifiers, string "
              "operands and unary signs are NOT in it, nor is the bridge from those raw tokens to parse or a correspondence op tying "
              "printText to String(), so accepted_roundtrip is not yet one character-level statement for all expressions - on every "
              "generated case that composition is checked by the correspondence (print + lexall); parseDuration's float rounding is modelled exactly, which agrees with the code below "
